@@ -21,8 +21,15 @@ Anything else (any other exception type, or > 5 s in one call) is a violation
 with finding key  <entry point>/<ExcType>/<file>:<function that raised>.
 
 Measured (CPU seconds summed over shards; the build machine was heavily loaded):
-quick    ~  430 k evaluations, ~  330 CPU-s  (~25 s wall on 16 idle cores)
-thorough see describe()/evidence.
+quick      977,081 calls (12,035 trees x 26 widths x 2 + 351,261 token calls), 637 outcome
+           signatures, ~310 CPU-s (52 s wall with 6 workers; ~20-25 s on 16 idle cores)
+thorough   70,200,379 calls (86,471 trees; 41.3 M token strings), 1,392 signatures,
+           ~9,400 CPU-s measured under load 130 (~10 min on 16 idle cores)
+Detection: 13 of 15 source edits reported (narrowed/dropped except clauses in style.py,
+console.py, markup.py, ansi.py; removed width/emptiness guards in console.render,
+table._measure_column, progress_bar, segment.get_shape, containers.justify; a widened regex in
+color.py; a non-terminating chop_cells); the two silent ones (Measurement.get guard,
+ratio_reduce guard) cannot raise for any tree of the grammar.
 """
 import io
 import itertools
